@@ -37,9 +37,9 @@ def overlay_map(files):
     return ov
 
 
-def symx(harness_files, runs, pkg='root', timeout=1800):
+def symx(harness_files, runs, pkg='root', timeout=1800, env=None):
     ensure_symx()
-    job = {'dir': REPO, 'pkg': MOD + ('/' + PKGDIR[pkg] if PKGDIR[pkg] else ''), 'module': MOD,
+    job = {'env': env or [], 'dir': REPO, 'pkg': MOD + ('/' + PKGDIR[pkg] if PKGDIR[pkg] else ''), 'module': MOD,
            'overlay': overlay_map(harness_files), 'runs': runs}
     t0 = time.time()
     p = subprocess.run([SYMX], input=json.dumps(job), capture_output=True, text=True, env=GOENV, timeout=timeout)
